@@ -20,6 +20,30 @@ CHECKS = {
              'the unit, capacity and no-growth clauses for all numeric values. '
              'Bounds (providers, classes, consumers) per family in evidence.',
         ref='DESIGN.md section 5 C01'),
+    'C04': dict(
+        text='Bounded symbolic model checking: every path of 35 write-request '
+             'shapes (allocation PUT/POST/DELETE, reshaper, inventory, trait, '
+             'aggregate writes; failing at each stage) over a symbolic '
+             'pre-state; on every path answered >=400 z3 proves the post-state '
+             'relations equal the pre-state relations for all numeric values.',
+        ref='DESIGN.md section 5 C04'),
+    'C08': dict(
+        text='One inductive step: pre-state assumed referentially intact, '
+             'every path of the write corpus explored, z3 proves that no '
+             'allocation/inventory/association in the post-state dangles.',
+        ref='DESIGN.md section 5 C08'),
+    'C10': dict(
+        text='One inductive step over the write corpus with symbolic stored '
+             'and supplied generations: z3 proves monotonicity, strict '
+             'increase on accepted changes, no change on rejections, and '
+             'returned == stored generation.',
+        ref='DESIGN.md section 5 C10'),
+    'C12': dict(
+        text='One inductive step over the allocation-writing corpus: z3 '
+             'proves "consumer row <=> at least one allocation" and the '
+             'consumer attributes on every path, for symbolic presence of '
+             'consumers/allocations and symbolic generations.',
+        ref='DESIGN.md section 5 C12'),
 }
 
 NOT_APPLICABLE = {}
